@@ -573,6 +573,15 @@ type (
 	}
 )
 
+// HashE nests several distinct named struct types (directly, through a pointer, in a slice and in a map).
+type HashE struct {
+	A HashA
+	O orders.User
+	U *users.User
+	L []HashD
+	M map[string]HashB
+}
+
 func hashPool(i int) interface{} {
 	switch i {
 	case 0:
@@ -585,6 +594,8 @@ func hashPool(i int) interface{} {
 		return orders.User{}
 	case 5:
 		return users.User{}
+	case 6:
+		return HashE{}
 	}
 
 	return &HashD{} // registered through a pointer, as values that travel as pointers are
@@ -758,7 +769,11 @@ func c14Hash(cc c14Cell, env *Env) CellResult {
 			}
 
 			if cc.Pool == 1 && t >= 2 {
-				t += 2 // the pool is {HashA, HashB, orders/model.User, users/model.User}
+				t += 2 // the pool is {HashA, HashE, orders/model.User, users/model.User}
+			}
+
+			if cc.Pool == 1 && t == 1 {
+				t = 6 // HashE: a struct with several distinct named struct types nested in it
 			}
 
 			sb.WriteString(strconv.Itoa(t))
@@ -895,7 +910,7 @@ func init() {
 		Cells: c14Cells, Run: c14Run,
 		Rule: "(transfer) all 27 assignments of three cache names (two of them need URL escaping) to exporter-only / importer-only / both, in every third case plus a cache under the empty name on both sides, x every entry set of <=2 entries over the C13 alphabet x backend pairing x request perturbation " +
 			"{none, types hash altered, types hash missing, name altered, name missing}, through an in-process RoundTripper that calls the Export handler (no sockets) and insists on the query parameters the export URL itself carries; " +
-			"(faults) three caches on both sides, the response body of one of them cut, and separately the body read failing, at EVERY byte offset, with the loggers of both sides rotating through {none, Error-only, all levels}; (hash) every registration sequence of length <=4 with repetitions over a pool of 4 types (struct, nested struct, map, and a struct registered through a pointer; and once more with two different types from different packages that are both called model.User) (340 each) x every way of splitting it into variadic GobRegister calls, each in a fresh process",
+			"(faults) three caches on both sides, the response body of one of them cut, and separately the body read failing, at EVERY byte offset, with the loggers of both sides rotating through {none, Error-only, all levels}; (hash) every registration sequence of length <=4 with repetitions over a pool of 4 types (struct, nested struct, map, and a struct registered through a pointer; and once more with two different types from different packages that are both called model.User and a struct that nests five named types) (340 each) x every way of splitting it into variadic GobRegister calls, each in a fresh process",
 		Assumptions: []string{
 			"net/http is used through Handler.ServeHTTP and a custom RoundTripper only; no scheduler is active",
 			"GobTypesHashReset is not part of the statement (fresh processes are) and is not used",
